@@ -138,16 +138,21 @@ structure Pct where
 deriving DecidableEq, Repr, Inhabited
 
 def factor1 : Amount := ⟨1, 0⟩
-def factor100 : Amount := ⟨100, 0⟩
 
 namespace Pct
 
-/-- `PercentageFromAmount` -/
-def ofAmount (a : Amount) : Pct := ⟨(a.rescale (a.exp + 2)).divide factor100⟩
+/-- `PercentageFromAmount`: the same digits with two more decimals (no
+    multiplication, no float: as of the fix "PercentageFromAmount keeps the
+    digits instead of multiplying and dividing by 100") -/
+def ofAmount (a : Amount) : Pct := ⟨⟨a.value, a.exp + 2⟩⟩
 
-/-- `Percentage.Amount` -/
+/-- `Percentage.Amount`: `RescaleUp(2)` (an integer multiplication when there
+    are fewer than two decimals), then two decimals less (as of the fix
+    "Percentage.Amount moves the decimal point instead of multiplying through
+    float64") -/
 def toAmount (p : Pct) : Amount :=
-  (p.amount.multiply factor100).rescale (p.amount.exp - 2)
+  let a := p.amount.rescaleUp 2
+  ⟨a.value, a.exp - 2⟩
 
 def rescale (p : Pct) (e : Nat) : Pct := ⟨p.amount.rescale e⟩
 
@@ -165,8 +170,6 @@ def compare (p q : Pct) : Int := p.amount.compare q.amount
 def negate (p : Pct) : Pct := ⟨p.amount.negate⟩
 
 /- exact layer -/
-def ofAmountX (a : Amount) : Pct := ⟨(a.rescaleX (a.exp + 2)).divX factor100⟩
-def toAmountX (p : Pct) : Amount := (p.amount.mulX factor100).rescaleX (p.amount.exp - 2)
 def factorX (p : Pct) : Amount := p.amount.addX factor1
 def ofX (p : Pct) (a : Amount) : Amount := a.mulX p.amount
 def fromX (p : Pct) (a : Amount) : Amount := a.subX (a.divX p.factorX)
